@@ -9,8 +9,11 @@
      nch, un   number of changed bytes / of bytes inside the reported sample slots still holding poison
      p         <<frame, channel, x, lo, hi>>: stored container bits (hi * 65536 + lo) resp. the float
                sample in fixed point lo = round(out * 2^21); xb = slots whose reference sample is not finite
-   Monitors (legs B): ret / refuse, same, signal, foot, count, slots, conv.  Leg C: the recorded return value and
-   period sequence (tap records of instance 1) against GenCall of the model with the real period
+   Monitors (legs B): ret / refuse, same, signal, foot, count, slots, conv.  foot and count are byte-exact for every
+   layout with disjoint slots, whatever the record stride and the alignment of the pointers: foot = every changed byte
+   of the allocation (guards included) lies in a slot left / right + i * so + 0..c-1, i < r / 2; count = changed bytes +
+   slot bytes still holding the poison = 2 * c * (r / 2), i.e. no changed byte outside and none missed by a cut run list.
+   Leg C: the recorded return value and period sequence (tap records of instance 1) against GenCall of the model with the real period
    buffer (512 frames). *)
 EXTENDS Audio, Json, IOUtils
 T == ndJsonDeserialize(IOEnv.TRACE)
@@ -23,7 +26,7 @@ Cnt0 == [steps |-> 0, execs |-> 0, calls |-> 0, vcalls |-> 0, gen |-> 0, play |-
          foot |-> 0, foot_bytes |-> 0, foot_trunc |-> 0, count |-> 0, coincide |-> 0, slots_full |-> 0,
          conv |-> 0, conv_clip |-> 0, conv_int |-> 0, conv_float |-> 0, unsynced |-> 0,
          t0 |-> 0, t1 |-> 0, t2 |-> 0, t3 |-> 0, t4 |-> 0, t5 |-> 0, t6 |-> 0, t7 |-> 0, t8 |-> 0, t9 |-> 0,
-         c1 |-> 0, c2 |-> 0, c4 |-> 0, c8 |-> 0, planar |-> 0, gapped |-> 0,
+         c1 |-> 0, c2 |-> 0, c4 |-> 0, c8 |-> 0, planar |-> 0, gapped |-> 0, ustride |-> 0, ustride1 |-> 0, uptr |-> 0,
          refined |-> 0, pf_exact |-> 0, pf_fuzzy |-> 0, drifted |-> 0]
 Init == l = 1 /\ sync = <<>> /\ M = S0(<<>>) /\ fails = <<>> /\ cnt = Cnt0 /\ drift = <<>> /\ exec = 0
 
@@ -135,6 +138,11 @@ StepAudio(ev) ==
            !.c1 = @ + cntC(1), !.c2 = @ + cntC(2), !.c4 = @ + cntC(4), !.c8 = @ + cntC(8),
            !.planar = @ + sumk(LAMBDA k : IF R[k].syn /\ R[k].nf > 0 /\ Abs(ev.f[k].rb - ev.f[k].lb) >= ev.f[k].so /\ R[k].nf > 1 THEN 1 ELSE 0),
            !.gapped = @ + sumk(LAMBDA k : IF R[k].syn /\ R[k].nf > 1 /\ ev.f[k].so > 2 * ev.f[k].c THEN 1 ELSE 0),
+           \* byte-granular layouts: calls of >= 2 frames whose record stride is not a multiple of the container (ustride1: the
+           \* smallest one, container + 1), calls whose left or right pointer is not aligned to the container
+           !.ustride = @ + sumk(LAMBDA k : IF R[k].syn /\ R[k].nf > 1 /\ ev.f[k].so % ev.f[k].c # 0 THEN 1 ELSE 0),
+           !.ustride1 = @ + sumk(LAMBDA k : IF R[k].syn /\ R[k].nf > 1 /\ ev.f[k].c > 1 /\ ev.f[k].so = ev.f[k].c + 1 THEN 1 ELSE 0),
+           !.uptr = @ + sumk(LAMBDA k : IF R[k].syn /\ R[k].nf > 0 /\ (ev.f[k].lb % ev.f[k].c # 0 \/ ev.f[k].rb % ev.f[k].c # 0) THEN 1 ELSE 0),
            !.refined = @ + 1,
            !.pf_exact = @ + (IF ev.o = "gen" /\ exact THEN 1 ELSE 0),
            !.pf_fuzzy = @ + (IF ev.o = "gen" /\ ~exact /\ fuzzy THEN 1 ELSE 0),
